@@ -37,7 +37,7 @@ ASSUMPTIONS = [
 ]
 BUDGET = {
     "quick": dict(cases=600, shards=4, timeout=900),
-    "thorough": dict(cases=3000, shards=16, timeout=3000),
+    "thorough": dict(cases=7000, shards=16, timeout=3600),
 }
 CLASSES = [
     "basic", "staggered", "wide", "exhaustive", "peaky", "unbatched", "iters_edge",
